@@ -330,6 +330,12 @@ func installStringModels(m *Machine) {
 		}
 	}
 	m.Hooks["bytes.Equal"] = b2(func(a, b []byte) Val { return bytes.Equal(a, b) })
+	m.Hooks["crypto/subtle.ConstantTimeCompare"] = b2(func(a, b []byte) Val {
+		if len(a) == len(b) && bytes.Equal(a, b) {
+			return int64(1)
+		}
+		return int64(0)
+	})
 	m.Hooks["bytes.HasPrefix"] = b2(func(a, b []byte) Val { return bytes.HasPrefix(a, b) })
 	m.Hooks["bytes.HasSuffix"] = b2(func(a, b []byte) Val { return bytes.HasSuffix(a, b) })
 	m.Hooks["bytes.Contains"] = b2(func(a, b []byte) Val { return bytes.Contains(a, b) })
